@@ -569,9 +569,14 @@ def region_of(sc, run, t, j, o, ref_per):
     trace = run.get('trace') or []
     npaths = sum(1 for f in sc.fields if f.get('path'))
     # F31: two set-ups of the per-class path tables overlap (>= 2 JSON-path fields)
-    if npaths >= 2 and err in ('KeyError', 'MissingFields'):
+    # third manifestation (first seen in a real-thread stress run of `paths dump||load`): the load generator ITERATES
+    # the shared path table (loaders.py:651 `for field, path in field_to_path.items()`) while the other thread's
+    # set-up is still adding entries to it in place -> RuntimeError 'dictionary changed size during iteration'
+    if npaths >= 2 and err in ('KeyError', 'MissingFields', 'RuntimeError'):
         pnames = getattr(sc, 'path_names', None) or {NAMES[i] for i, f in enumerate(sc.fields) if f.get('path')}
         if err == 'MissingFields' and not set(o.get('missing_fields') or []) <= pnames:
+            return None
+        if err == 'RuntimeError' and not o.get('dict_changed_size'):
             return None
         starters = {tid for tid, n in trace if n in CFG_BEGIN}
         if (not trace) or len(starters) >= 2:
